@@ -106,8 +106,15 @@ func enumSmall() []*model.Node {
 }
 
 type operand struct {
-	tree *model.Node
-	rep  string
+	tree  *model.Node // nil for a self step
+	rep   string
+	pol   int  // index into policies: the policy of this step
+	reuse int  // >= 0: the source is the very *Config object built for that earlier step
+	self  bool // the source is the target itself
+}
+
+func plain(t *model.Node, rep string, pol int) operand {
+	return operand{tree: t, rep: rep, pol: pol, reuse: -1}
 }
 
 // source renders the operand in the chosen Go representation.
@@ -227,11 +234,11 @@ func (check) Run(seed int64, tier string, idx int, verbose bool) harness.Result 
 		depth = 5
 	}
 	o := gen.TreeOpts{Depth: depth}
-	pol := policies[r.Intn(len(policies))]
+	base := r.Intn(len(policies))
 	chain := gen.Chain(r, o, 2+r.Intn(3), depth)
 	ops := make([]operand, len(chain))
 	for i, t := range chain {
-		ops[i] = operand{t, reps[r.Intn(len(reps))]}
+		ops[i] = plain(t, reps[r.Intn(len(reps))], base)
 		if r.Intn(8) == 0 {
 			// give the operand both parts: its own plus the missing one from a small tree
 			extra := gen.Top(r, o, 2)
@@ -243,60 +250,163 @@ func (check) Run(seed int64, tier string, idx int, verbose bool) harness.Result 
 			}
 			if len(mixed.D) > 0 && len(mixed.A) > 0 {
 				chain[i] = mixed
-				ops[i] = operand{mixed, "config-mixed"}
+				ops[i] = plain(mixed, "config-mixed", base)
 			}
 		}
 	}
-	runChain(res, r, pol.p, pol.opts, ops, verbose)
+	// emptiness clashes: an explicit empty list in one operand, nil / {} / [] at
+	// the same place of the next one
+	for i := 1; i < len(ops); i++ {
+		if r.Intn(4) == 0 && plantEmptinessClash(r, ops[i-1].tree, ops[i].tree) {
+			res.Ev("planted_emptiness_clashes", 1)
+		}
+	}
+	// the policy may change from step to step
+	if r.Intn(3) == 0 {
+		for i := range ops {
+			if r.Intn(2) == 0 {
+				ops[i].pol = r.Intn(len(policies))
+			}
+		}
+	}
+	// the target itself as the source of a step that is followed by another one
+	if r.Intn(8) == 0 {
+		at := 1 + r.Intn(len(ops)-1)
+		self := operand{rep: "self", pol: ops[at].pol, reuse: -1, self: true}
+		ops = append(ops[:at], append([]operand{self}, ops[at:]...)...)
+	}
+	// the very same *Config source once more, after at least one other merge
+	if r.Intn(3) == 0 {
+		j := r.Intn(len(ops) - 1)
+		if !ops[j].self {
+			switch ops[j].rep {
+			case "config", "child", "config-mixed":
+			default:
+				ops[j].rep = "config"
+			}
+			again := ops[j]
+			again.reuse = j
+			if r.Intn(2) == 0 {
+				again.pol = ops[len(ops)-1].pol
+			}
+			ops = append(ops, again)
+		}
+	}
+	runChain(res, r, base, ops, verbose)
 	if idx < 2 {
-		res.Sample = describe(pol.p, ops)
+		res.Sample = describe(ops)
 	}
 	return res.Done()
 }
 
-func describe(p model.Policy, ops []operand) map[string]interface{} {
+func describe(ops []operand) map[string]interface{} {
 	var l []string
 	for _, o := range ops {
-		l = append(l, o.rep+":"+o.tree.String())
+		pn := policies[o.pol].p.String()
+		switch {
+		case o.self:
+			l = append(l, pn+"/self")
+		case o.reuse >= 0:
+			l = append(l, fmt.Sprintf("%s/%s(same object as operand %d):%s", pn, o.rep, o.reuse, o.tree.String()))
+		default:
+			l = append(l, pn+"/"+o.rep+":"+o.tree.String())
+		}
 	}
-	return map[string]interface{}{"policy": p.String(), "operands": l}
+	return map[string]interface{}{"operands": l}
 }
 
-func runChain(res *harness.R, r *rand.Rand, p model.Policy, opts []ucfg.Option, ops []operand, verbose bool) {
+func runChain(res *harness.R, r *rand.Rand, base int, ops []operand, verbose bool) {
 	desc := func() string {
-		d := describe(p, ops)
-		return fmt.Sprintf("policy=%v operands=%v", d["policy"], strings.Join(d["operands"].([]string), " ; "))
+		return fmt.Sprintf("operands (policy/representation:tree)=%v", strings.Join(describe(ops)["operands"].([]string), " ; "))
 	}
 	c := ucfg.New()
 	m := &model.Node{Kind: model.KSub}
 	var usedReps []string
+	srcs := make([]interface{}, len(ops))  // the source objects as built
+	orig := make([]string, len(ops))       // what a *Config source unpacked to when it was built
+	trees := make([]*model.Node, len(ops)) // what each step merged
+	selfSeen, reusedSteps, mixedPolicies := false, 0, false
 	panicked, pv, where := harness.Safe(func() {
+		prev, err := observe(c)
+		if err != nil {
+			res.Violate("unpack-error", "Unpack of the empty config failed: %v", err)
+			return
+		}
 		for i, op := range ops {
-			src, rep, err := source(r, op.tree, op.rep)
-			usedReps = append(usedReps, rep)
-			if err != nil {
-				res.Violate("source-build-error", "building operand %d failed: %v; %s", i, err, desc())
-				return
+			pol := policies[op.pol]
+			if op.pol != base {
+				mixedPolicies = true
 			}
+			var src interface{}
+			var rep string
+			var b *model.Node
+			var reusedCfg *ucfg.Config
+			if op.self {
+				src, rep, b = c, "self", m.Copy()
+				selfSeen = true
+			} else {
+				b = op.tree
+				if op.reuse >= 0 {
+					reusedCfg, _ = srcs[op.reuse].(*ucfg.Config)
+				}
+				if reusedCfg != nil {
+					src, rep = reusedCfg, usedReps[op.reuse]+"-again"
+					reusedSteps++
+				} else {
+					var err error
+					src, rep, err = source(r, op.tree, op.rep)
+					if err != nil {
+						usedReps = append(usedReps, rep)
+						res.Violate("source-build-error", "building operand %d failed: %v; %s", i, err, desc())
+						return
+					}
+					srcs[i] = src
+					if cfg, ok := src.(*ucfg.Config); ok {
+						orig[i], _ = obs.Top(cfg)
+						res.Eval(1)
+					}
+				}
+			}
+			usedReps = append(usedReps, rep)
+			trees[i] = b
+			aBefore := m.Copy()
 			res.Eval(1)
-			if err := c.Merge(src, opts...); err != nil {
+			if err := c.Merge(src, pol.opts...); err != nil {
 				res.Violate("merge-error", "Merge of operand %d returned error %v; %s", i, err, desc())
 				if p := obs.TypedErrorProblem(err); p != "" {
 					res.Violate("untyped-error", "%s", p)
 				}
 				return
 			}
-			model.Merge(m, op.tree.Copy(), nil, model.Global(p))
-			got, err := obs.Top(c)
+			model.Merge(m, b.Copy(), nil, model.Global(pol.p))
+			got, err := observe(c)
 			res.Eval(1)
 			if err != nil {
 				res.Violate("unpack-error", "Unpack after merging operand %d failed: %v; %s", i, err, desc())
 				return
 			}
-			if want := m.CanonTop(); got != want {
-				res.Violate("merge-model-mismatch", "after merging operand %d (%s): got %s want %s; %s", i, rep, got, want, desc())
+			if want := m.CanonTop(); got.canon != want {
+				// classify: was a *Config source that is used again altered by the merges in between?
+				sig, note := "merge-model-mismatch", ""
+				if reusedCfg != nil {
+					if now, err := obs.Top(reusedCfg); err != nil || now != orig[op.reuse] {
+						sig = "merge-model-mismatch:reused-config-source-no-longer-holds-what-it-was-built-from"
+						note = fmt.Sprintf(" (the source unpacked to %s when built, to %s now, err=%v)", orig[op.reuse], now, err)
+					}
+				}
+				if sig == "merge-model-mismatch" && selfSeen {
+					sig = "merge-model-mismatch:chain-with-self-merge-step"
+				}
+				res.Violate(sig, "after merging operand %d (%s, %v): got %s want %s%s; %s", i, rep, pol.p, got.canon, want, note, desc())
 				return
 			}
+			if !op.self {
+				emptinessLaws(res, prev, got, aBefore, b, pol.p, desc)
+				if len(res.Violations) > 0 {
+					return
+				}
+			}
+			prev = got
 		}
 	})
 	if panicked {
@@ -312,29 +422,42 @@ func runChain(res *harness.R, r *rand.Rand, p model.Policy, opts []ucfg.Option, 
 	for _, rep := range usedReps {
 		res.SetAdd("representation", rep)
 	}
-	res.SetAdd("policy", p.String())
-	nt := 0
 	for _, op := range ops {
-		if nonEmpty(op.tree) {
+		res.SetAdd("policy", policies[op.pol].p.String())
+	}
+	if mixedPolicies {
+		res.Ev("chains_with_policy_changing_between_steps", 1)
+	}
+	if selfSeen {
+		res.Ev("chains_with_target_as_source_step", 1)
+	}
+	if reusedSteps > 0 {
+		res.Ev("chains_with_same_config_object_merged_again", 1)
+	}
+	nt := 0
+	for _, t := range trees {
+		if nonEmpty(t) {
 			nt++
 		}
 	}
 	ov := false
-	for i := 1; i < len(ops); i++ {
-		if overlap(ops[i-1].tree, ops[i].tree) {
+	for i := 1; i < len(trees); i++ {
+		if overlap(trees[i-1], trees[i]) {
 			ov = true
-			clashes(res, ops[i-1].tree, ops[i].tree, 0)
+			clashes(res, trees[i-1], trees[i], 0)
 		}
 	}
 	if nt >= 2 && ov {
 		var k strings.Builder
-		fmt.Fprintf(&k, "%d", p)
 		for i, op := range ops {
-			fmt.Fprintf(&k, "|%s:%s", usedReps[i], op.tree.String())
+			fmt.Fprintf(&k, "|%d:%s", op.pol, usedReps[i])
+			if !op.self {
+				k.WriteString(":" + op.tree.String())
+			}
 		}
 		res.Key(k.String())
 	}
-	laws(res, p, opts, ops, desc)
+	laws(res, policies[base].p, policies[base].opts, ops, desc)
 }
 
 // laws asserts the derived, model-independent laws of the statement.
